@@ -60,6 +60,12 @@ type Obs struct {
 	Take      *Row    `json:"take"`
 	Batches   [][]Row `json:"batches"`
 	BatchesRA int64   `json:"batches_ra"`
+	Ptrs      []Row   `json:"ptrs"`
+	Array     []Row   `json:"array"`
+	Single    *Row    `json:"single"`
+	SingleRA  int64   `json:"single_ra"`
+	Prim      *int64  `json:"prim"`
+	PrimRA    int64   `json:"prim_ra"`
 	Errs      []string `json:"errs"`
 }
 
@@ -169,6 +175,36 @@ func run(db *gorm.DB, in Input) Obs {
 	var scanned []Item
 	fail("scan", chain(db, in).Model(&Item{}).Scan(&scanned).Error)
 	o.Scan = toRows(scanned)
+	// further destination kinds: slice of pointers, array, one struct, one primitive
+	{
+		var ptrs []*Item
+		fail("ptrs", chain(db, in).Find(&ptrs).Error)
+		o.Ptrs = []Row{}
+		for _, p := range ptrs {
+			o.Ptrs = append(o.Ptrs, Row{p.ID, p.V})
+		}
+		var arr [16]Item
+		r := chain(db, in).Find(&arr)
+		fail("array", r.Error)
+		o.Array = []Row{}
+		for i := 0; i < int(r.RowsAffected) && i < len(arr); i++ {
+			o.Array = append(o.Array, Row{arr[i].ID, arr[i].V})
+		}
+		var one Item
+		r = chain(db, in).Find(&one)
+		fail("single", r.Error)
+		o.SingleRA = r.RowsAffected
+		if r.RowsAffected > 0 {
+			o.Single = &Row{one.ID, one.V}
+		}
+		var prim int64 = -12345
+		r = chain(db, in).Model(&Item{}).Select("id").Scan(&prim)
+		fail("prim", r.Error)
+		o.PrimRA = r.RowsAffected
+		if r.RowsAffected > 0 {
+			o.Prim = &prim
+		}
+	}
 	// Pluck
 	o.PluckID, o.PluckV = []int64{}, []int64{}
 	fail("pluck_id", chain(db, in).Model(&Item{}).Pluck("id", &o.PluckID).Error)
@@ -227,6 +263,12 @@ func gORow(r *Row) string {
 	}
 	return "(Some " + gRow(*r) + ")"
 }
+func gOZ(p *int64) string {
+	if p == nil {
+		return "None"
+	}
+	return "(Some " + lib.Z(*p) + ")"
+}
 func gCond(c Cond) string {
 	switch c.Kind {
 	case "mod":
@@ -258,7 +300,9 @@ func term(in Input, o Obs) string {
 		gRows(o.Find), lib.Z(o.FindRA), gRows(o.Maps), gRows(o.Rows), gRows(o.Scan),
 		lib.ZList(o.PluckID), lib.ZList(o.PluckV), lib.Z(o.Count),
 		gORow(o.First), gORow(o.Last), gORow(o.Take),
-		lib.ListOf(o.Batches, gRows), lib.Z(o.BatchesRA), lib.Z(int64(len(o.Errs))))
+		lib.ListOf(o.Batches, gRows), lib.Z(o.BatchesRA),
+		gRows(o.Ptrs), gRows(o.Array), gORow(o.Single), lib.Z(o.SingleRA), gOZ(o.Prim), lib.Z(o.PrimRA),
+		lib.Z(int64(len(o.Errs))))
 }
 
 // ---- generation ----
